@@ -176,4 +176,8 @@ mut("C03 momentum spanning tested on any component vertex", [(PRE, "            
 mut("C03 mass spanning with >=", [(PRE, "let is_mass_spanning = num_massive_edges == self.num_massive_edges;", "let is_mass_spanning = num_massive_edges + 1 >= self.num_massive_edges;")], C03="C03-e")
 mut("C03 N: conjunction commuted", [(PRE, "        is_mass_spanning && is_momentum_spanning", "        is_momentum_spanning && is_mass_spanning")], C03=None, C05=None)
 
+# ---- C06-d ----
+mut("C06 p_e divides by omega of the parent graph", [(PRE, "                / uniform.from_f64(self.table[graph_without_edge.id].generalized_dod);", "                / uniform.from_f64(self.table[subgraph.id].generalized_dod);")], C06="C06-d")
+mut("C06 p_e numerator from the parent graph", [(PRE, "            let p_e = uniform.from_f64(self.table[graph_without_edge.id].j_function)", "            let p_e = uniform.from_f64(self.table[subgraph.id].j_function)")], C06="C06-d")
+
 MUTATIONS = M
